@@ -391,6 +391,21 @@ func (x *X) safetyProps() []string {
 	if x.topC != nil && len(x.topC.SafetyProps) > 0 {
 		return x.topC.SafetyProps
 	}
+	// a function under contract in a package with a safety sweep: its safety
+	// obligations count for its own properties and for the sweep's
+	if x.top != nil && x.top.Pkg != nil {
+		for pkg, sw := range x.db.sweeps {
+			if pkg.Types == x.top.Pkg.Pkg && len(sw.Props) > 0 {
+				out := append([]string{}, x.props...)
+				for _, q := range sw.Props {
+					if !contains(out, q) {
+						out = append(out, q)
+					}
+				}
+				return out
+			}
+		}
+	}
 	return x.props
 }
 
